@@ -246,3 +246,8 @@ mod tests {
         drop(store);
     }
 }
+
+// verification hook (H3): in-module Kani harnesses for the builder (need its private fields)
+#[cfg(kani)]
+#[path = "/verif/kani/harness/in_builder.rs"]
+mod verif_kani_in_builder;
